@@ -369,6 +369,37 @@ def judge(ctx, traces, meta):
     return n
 
 
+def binding_controls(ctx, traces):
+    """RefsLin is not vacuous: a recorded history with one result flipped / a wrong final value must be rejected."""
+    import copy
+    good = next((t for t in traces if sum(1 for o in t["ops"] if o["k"] == "set_if_equals" and o["old"] >= 0 and not o["exc"]) >= 2
+                 and not t["commits"]), None)
+    if good is None:
+        raise MachineryError("no history with two conditional updates available for the binding controls")
+    a = copy.deepcopy(good)
+    a["tid"] = 900001
+    for o in a["ops"]:
+        if o["k"] == "set_if_equals" and o["old"] >= 0 and not o["exc"]:
+            o["res"] = 1                      # every CAS from the same old value "succeeded"
+    if all(o["res"] == 1 for o in good["ops"] if o["k"] == "set_if_equals" and o["old"] >= 0 and not o["exc"]):
+        a["ops"][0]["res"] = 0
+    b = copy.deepcopy(good)
+    b["tid"] = 900002
+    b["final"] = [7]
+    d = ctx.tmpdir("ctl")
+    path = os.path.join(d, "ctl.ndjson")
+    with open(path, "w") as f:
+        for t in (a, b):
+            f.write(json.dumps(t, separators=(",", ":")) + "\n")
+    res = tlc.run("RefsLin.tla", "RefsLin.cfg", workers=1, timeout=300, env={"TRACE_FILE": path})
+    ctx.add_tlc("RefsLin[binding controls: flipped result, wrong final value]", res, require_ok=False)
+    acc = {v[1] for v in tlc.extract_printed(res.output, "LIN") if v[2] == "strict"}
+    if 900001 in acc or 900002 in acc:
+        raise MachineryError(f"binding control failed: corrupted histories accepted by RefsLin: {acc}")
+    ctx.cov["binding_controls"] = {"flipped_result_rejected": True, "wrong_final_rejected": True}
+    shutil.rmtree(d, ignore_errors=True)
+
+
 # --------------------------------------------------------------------------- scenarios
 def combos(ctx):
     two = [("cas3", "cas4"), ("cas3", "pack"), ("cas3", "read"), ("pack", "read"), ("pack", "asdict"),
@@ -383,11 +414,11 @@ def combos(ctx):
     out = []
     for layout in LAYOUTS:
         for c in two:
-            out.append((layout, [[c[0]], [c[1]]], ctx.pick(2, 3), ctx.pick(90, 4000)))
+            out.append((layout, [[c[0]], [c[1]]], ctx.pick(2, 3), ctx.pick(60, 1500)))
         for c in three:
-            out.append((layout, [[x] for x in c], ctx.pick(1, 2), ctx.pick(70, 4000)))
+            out.append((layout, [[x] for x in c], ctx.pick(1, 2), ctx.pick(50, 1500)))
         for c in seq2:
-            out.append((layout, [list(c[0]), list(c[1])], ctx.pick(1, 3), ctx.pick(70, 4000)))
+            out.append((layout, [list(c[0]), list(c[1])], ctx.pick(1, 3), ctx.pick(50, 1500)))
     return out
 
 
@@ -450,6 +481,7 @@ def run(ctx):
     ctx.sample({"kind": "commit-history", "trace": traces[-1], "meta": meta[traces[-1]["tid"]]["desc"]})
     n = judge(ctx, traces, meta)
     ctx.validated(n)
+    binding_controls(ctx, traces)
     c08_model.validate_shapes(ctx)
     ctx.cov["rule"] = ("one real execution per schedule (bounded preemptions, system-call grain) of 2-3 actors performing ref operations "
                        "or commits from each initial layout {absent, loose, packed, both}; distinct = distinct (layout, operations, "
